@@ -90,4 +90,24 @@ theorem finish_spec {st : St} {ss : SSt} (G : GInv st ss) (nv nb : Nat)
       · rw [if_pos hk] at ho; cases ho
       · rw [if_neg hk, hb k (by omega)] at ho; cases ho
 
+/-- iterating `begin() .. end()` reads exactly the specification's list -/
+theorem toList_of_owns {h : Heap} {v : RV} {l : List Int} (ho : Owns h v l) : toList h v = .ok l := by
+  obtain ⟨hlen, hcap, hb⟩ := ho
+  cases hbase : v.base with
+  | none =>
+    rw [hbase] at hb
+    simp only at hb
+    have : l = [] := List.eq_nil_of_length_eq_zero (by omega)
+    subst this
+    simp [toList, hbase]; omega
+  | some b =>
+    rw [hbase] at hb
+    obtain ⟨c, hslot, hc⟩ := hb
+    simp only [toList, hbase]
+    rw [← hlen]
+    exact readRange_spec b v.cap c h hslot l 0 (by omega) (fun k hk => by rw [Nat.zero_add]; exact hc k hk)
+
+theorem readArea_eq (h : Heap) (b : Buf) : Buf.readArea h b = toList h b.toRV := by
+  cases b with | mk base r w c => cases base <;> rfl
+
 end Fcppt.C07
